@@ -19,6 +19,7 @@ def tables : List (String → List String → Option String) := []
   ++ [Drv.codecsTable]
   ++ [Drv.TracksV1.specTable]
   ++ [Drv.T2.table]
+  ++ [Drv.C15.table]
   ++ [Drv.TableApi.specTable]
 
 /-- Stateful groups, selected by a first line `#mode <name>`. -/
